@@ -38,6 +38,16 @@ def classify(r):
     if r.get("ca") != r.get("cb"):
         return "c14:%s:return-differs" % {"ws": "with_settings", "fus": "from_url_with_settings", "new": "new"}.get(r["ctor"], "from_url")
     a, b, steps = r["a"], r["b"], r["steps"]
+    unst = None         # first step after which only outcome classes are comparable (see LdapSeqSync `unst`)
+    for i, st in enumerate(steps):
+        if st["call"] == "unbind":
+            unst = i
+            break
+        if st["call"].startswith("streaming_search") and st["srv"] in ("dis", "k1d"):
+            saw = lambda l: i < len(l) and any(s["var"] == "EndOfStream" for s in l[i]["subs"])
+            if not (saw(a) and saw(b)):
+                unst = i
+                break
     for i in range(max(len(a), len(b))):
         st = steps[i]
         m = "modifiers" if st["call"] == "noop" else st["call"]
@@ -64,11 +74,16 @@ def classify(r):
             return "c14:%s:wire-differs:bytes" % m
 
         def rk(name, p, q):
-            t = lambda z: z["out"] in ("timeout", "hang")
-            if (t(p) or t(q)) and p["out"] != q["out"]:
+            if {p["out"], q["out"]} == {"timeout", "hang"}:
                 return "c14:with_timeout:return-differs"
             return "c14:%s:return-differs" % name
-        if x["ret"] != y["ret"]:
+        coarse = unst is not None and i > unst
+        if coarse:
+            same = st["call"] in ("is_closed", "get_peer_certificate") or (
+                x["ret"]["out"] == y["ret"]["out"] and (x["ret"]["out"] != "ok" or x["ret"] == y["ret"]))
+        else:
+            same = x["ret"] == y["ret"]
+        if not same:
             return rk(m, x["ret"], y["ret"])
         for k in range(max(len(x["subs"]), len(y["subs"]))):
             name = sub_name(st["sub"][k]) if k < len(st["sub"]) else "EntryStream"
@@ -76,9 +91,11 @@ def classify(r):
                 return "c14:%s:return-differs" % name
             if x["subs"][k] != y["subs"][k]:
                 return rk(name, x["subs"][k], y["subs"][k])
+        if x["ret"]["out"] == "hang" or any(z["out"] == "hang" for z in x["subs"]):
+            continue
         if x["lastid"] != y["lastid"]:
             return "c14:last_id:return-differs"
-        if x["closed"] != y["closed"]:
+        if x["closed"] != y["closed"] and not (unst is not None and i >= unst):
             return "c14:is_closed:return-differs"
     return "c14:transcripts-differ"
 
